@@ -1,6 +1,6 @@
 """C23 — mitmproxy never proxies a connection back to its own listening sockets
 (mitmproxy/addons/proxyserver.py Proxyserver.server_connect; mitmproxy/proxy/server.py open_connection)."""
-import asyncio, ipaddress, itertools, logging
+import asyncio, ipaddress, itertools, json, logging, socket
 from types import SimpleNamespace as NS
 from common.check import PropertyCheck, Skip, hx, unhx
 from mitmproxy import connection
@@ -96,6 +96,42 @@ def denotes_own_socket(case) -> bool:
             if same or (listen_loop_any and dest_loop) or dest_unspec:
                 return True
     return False
+
+
+def _srv_field(s):
+    return s["tp"] + "/" + ",".join(f"{hx(h.encode())}:{p}" for h, p in s["addrs"])
+
+
+def _keyed(pairs):
+    return "&".join(f"{k}={_srv_field(s)}" for k, s in pairs) or "-"
+
+
+def hist_ops(steps):
+    """a stub-listener history as operations of the stateful model: a reconfiguration whenever the listener set differs
+    from the previous call (an instance equal to one of the previous set keeps its key = is kept), then the connect"""
+    ops, expect_l, cur, keys, nxt = [], [], None, {}, 0
+    for st in steps:
+        if cur is None or st["servers"] != cur:
+            newkeys = {}
+            pairs = []
+            for s in st["servers"]:
+                r = repr(s)
+                if r in keys and r not in newkeys: k = keys[r]
+                else: k = nxt; nxt += 1
+                newkeys[r] = k; pairs.append((k, s))
+            keys, cur = newkeys, st["servers"]
+            ops.append(f"R;1;{','.join(str(k) for k, _ in pairs) or '-'};{_keyed(pairs)}")
+            expect_l.append("L;" + _keyed(pairs))
+        else:
+            expect_l.append(None)
+        ops.append(f"C;{st['dest_hex']};{st['dport']};{st['tp']};{st['ok']}")
+    return ops, expect_l
+
+
+REAL_SPECS = ["regular@127.0.0.1:0", "socks5@127.0.0.2:0", "reverse:http://example.com@127.0.0.3:0",
+              "upstream:http://example.com:3128@0", "reverse:udp://example.com:53@127.0.0.5:0", "dns@127.0.0.4:0"]
+REAL_DESTS = ["localhost", "LOCALHOST.", "127.0.0.1", "127.0.0.2", "127.9.8.7", "::1", "::ffff:127.0.0.1", "0.0.0.0", "::",
+              "127.0.0.3", "::FFFF:7F00:5", "example.com", "192.168.1.5", "128.0.0.0"]
 
 
 class _FakeStream:
@@ -199,6 +235,58 @@ class _Env:
         return h, srv, trace
 
 
+class _RealEnv(_Env):
+    """a fresh Proxyserver with REAL listeners (asyncio.start_server / mitmproxy_rs udp on loopback, port 0) that is
+    reconfigured at run time through the `mode` / `server` options, i.e. through the real configure() -> Servers.update()"""
+    def __init__(self):
+        super().__init__()
+        from mitmproxy.proxy import mode_specs
+        self.specs = [mode_specs.ProxyMode.parse(x) for x in REAL_SPECS]
+        self.started = False
+
+    async def _settle(self):
+        await asyncio.sleep(0)
+        for _ in range(2000):
+            if not self.ps.servers.is_updating: break
+            await asyncio.sleep(0.002)
+        await asyncio.sleep(0.002)
+
+    def reconfigure(self, modes, server=True):
+        async def go():
+            kw = dict(mode=[REAL_SPECS[i] for i in modes], server=bool(server))
+            if not self.started:
+                self.tctx.configure(self.ps, **kw)
+                await self.ps.setup_servers()
+                self.ps.running()
+                self.started = True
+            else:
+                cur = dict(mode=list(self.tctx.options.mode), server=self.tctx.options.server)
+                diff = {k: v for k, v in kw.items() if cur[k] != v}
+                if diff: self.tctx.configure(self.ps, **diff)
+            await self._settle()
+            out = []
+            for spec, inst in self.ps.servers._instances.items():
+                i = self.specs.index(spec)
+                out.append([i, spec.transport_protocol, [[a[0], a[1]] for a in inst.listen_addrs]])
+            return out
+        return self.loop.run_until_complete(go())
+
+    def close(self):
+        try:
+            if self.started:
+                async def stop():
+                    self.tctx.configure(self.ps, server=False)
+                    await self._settle()
+                self.loop.run_until_complete(stop())
+        finally:
+            self.loop.close()
+
+    def run(self, case):
+        self.current = repr(case["servers"])      # the live instances are the real ones: nothing to swap in
+        real, self.ps.servers._instances = self.ps.servers._instances, self.ps.servers._instances
+        return _Env.run(self, case)
+
+
 _ENV = None
 
 
@@ -255,6 +343,7 @@ class Check(PropertyCheck):
                     "asyncio.open_connection / mitmproxy_rs.udp.open_udp_connection are the only socket primitives "
                     "open_connection can reach"]
     parallel = False
+    _real_line = {}
 
     # ---------------- translator ----------------
     def translate(self):
@@ -320,6 +409,34 @@ class Check(PropertyCheck):
             elif b: del b[rng.randrange(len(b))]
         return bytes(b).decode()
 
+    def _real_histories(self, rng, count):
+        """start -> attempt -> runtime reconfiguration (listener added / moved / dropped / server off) -> attempts at the
+        new, the kept and the dropped listeners"""
+        light = [0, 1, 2, 3, 4]                      # dns (index 5) starts slowly: used rarely
+        for n in range(count):
+            pool = light + ([5] if n % 8 == 0 else [])
+            first = sorted(rng.sample(pool, rng.randint(1, 2)))
+            steps = [{"op": "modes", "modes": first, "server": 1}]
+            known = list(first)
+
+            def attempt():
+                spec = rng.pick(known) if rng.chance(0.85) else rng.pick(pool)
+                return {"op": "connect", "dest": rng.pick(REAL_DESTS), "spec": spec,
+                        "tp": "udp" if (spec in (4, 5) and rng.chance(0.7)) else rng.pick(["tcp", "tcp", "udp"]),
+                        "ok": rng.randint(0, 1)}
+            steps.append(attempt())
+            for _ in range(rng.randint(1, 3)):
+                r = rng.random()
+                cur = steps[[i for i, x in enumerate(steps) if x["op"] == "modes"][-1]]["modes"]
+                if r < 0.5: nxt = sorted(set(cur) | {rng.pick(pool)})
+                elif r < 0.7: nxt = sorted(set(cur) - {rng.pick(cur)}) if cur else [rng.pick(pool)]
+                elif r < 0.9: nxt = sorted(rng.sample(pool, rng.randint(1, 3)))
+                else: nxt = cur
+                steps.append({"op": "modes", "modes": nxt, "server": 0 if (r >= 0.9) else 1})
+                known = sorted(set(known) | set(nxt))
+                for _ in range(rng.randint(1, 3)): steps.append(attempt())
+            yield {"real": steps}
+
     def generate(self, rng, tier):
         if tier == "thorough":
             yield from self.exhaustive(tier)
@@ -333,6 +450,7 @@ class Check(PropertyCheck):
                     for tp in ("tcp", "udp"):
                         for dport in (ports[0], ports[0] + 1):
                             yield self._case(dest, dport, tp, (i + j) % 2, servers)
+        yield from self._real_histories(rng, 24 if tier != "thorough" else 250)
         # histories: first an unrelated upstream connection, then the listeners change, then a self-connect to the new one
         k = 0
         for i, a in enumerate(LISTEN_CONFIGS):
@@ -368,6 +486,8 @@ class Check(PropertyCheck):
 
     # ---------------- implementation ----------------
     def impl(self, case):
+        if "real" in case:
+            return self._impl_real(case)
         if "hist" in case:
             # 2-5 upstream connections handled by ONE fresh Proxyserver instance, the listener set changing in between
             e = _Env()
@@ -378,6 +498,37 @@ class Check(PropertyCheck):
                 global _LOG_SINK
                 if _ENV is not None: _LOG_SINK = _ENV.errors
         return self._impl_step(env(), case)
+
+    def _impl_real(self, case):
+        global _LOG_SINK
+        e = _RealEnv()
+        steps, listing, last_port, ops, expect = [], [], {}, [], []
+        try:
+            for st in case["real"]:
+                if st["op"] == "modes":
+                    listing = e.reconfigure(st["modes"], st.get("server", 1))
+                    for i, tp, addrs in listing:
+                        if addrs: last_port[i] = addrs[0][1]
+                    steps.append({"listing": listing})
+                    pairs = [(i, {"tp": tp, "addrs": addrs}) for i, tp, addrs in listing]
+                    # what the OS answered for the instances of this reconfiguration (the model uses it for NEW specs only)
+                    ops.append(f"R;{1 if st.get('server', 1) else 0};{','.join(str(i) for i in st['modes']) or '-'};{_keyed(pairs)}")
+                    expect.append("L;" + _keyed(pairs))
+                else:
+                    dport = last_port.get(st["spec"], 9)       # the (current or former) port of that spec's listener
+                    servers = [{"tp": tp, "addrs": addrs} for _, tp, addrs in listing]
+                    sub = {"dest_hex": hx(st["dest"].encode()), "dport": dport, "tp": st["tp"], "ok": st["ok"],
+                           "servers": servers}
+                    o = self._impl_step(e, sub)
+                    o["sub"] = sub
+                    steps.append(o)
+                    ops.append(f"C;{sub['dest_hex']};{dport};{st['tp']};{st['ok']}")
+                    expect.append("T;" + ",".join(o["trace"]))
+            self._real_line[json.dumps(case, sort_keys=True)] = "run " + " ".join(ops)
+            return {"steps": steps, "expect": " ".join(expect)}
+        finally:
+            e.close()
+            if _ENV is not None: _LOG_SINK = _ENV.errors
 
     def _impl_step(self, e, case):
         h, srv, trace = e.run(case)
@@ -394,6 +545,13 @@ class Check(PropertyCheck):
         #  for the same transport — its explicit listen address, any loopback address or name when listening on loopback
         #  or all interfaces, or the wildcard address itself; such requests fail with a destination-unknown error instead
         #  of looping."
+        if "real" in case:
+            # same statement, judged against the listeners that are really bound at the time of each attempt
+            fails = []
+            for i, o in enumerate(obs["steps"]):
+                if "sub" in o:
+                    fails += [f"step {i + 1} (real listeners, after runtime reconfiguration): {f}" for f in self.oracle(o["sub"], o)]
+            return fails
         if "hist" in case:
             # whether a call's destination denotes an own socket depends only on the listeners at the time of that call
             fails = []
@@ -416,9 +574,16 @@ class Check(PropertyCheck):
 
     # ---------------- model tie ----------------
     def model_lines(self, case):
+        if "real" in case:
+            # the operations carry the OS' answers (ports) observed by impl(); which instances are kept and what is
+            # blocked afterwards is predicted by the model
+            line = self._real_line.get(json.dumps(case, sort_keys=True))
+            if line is None: raise Skip()
+            return [line]
         if "hist" in case:
             ls = [self.model_lines(st) for st in case["hist"]]
-            return None if any(l is None for l in ls) else [x for l in ls for x in l]
+            if any(l is None for l in ls): return None
+            return [x for l in ls for x in l] + ["run " + " ".join(hist_ops(case["hist"])[0])]
         dest = unhx(case["dest_hex"])
         if any(b >= 0x80 for b in dest):
             return None                       # model domain: ASCII host texts
@@ -430,22 +595,40 @@ class Check(PropertyCheck):
         return [f"sc {case['dest_hex']} {case['dport']} {case['tp']} {case['ok']} {srv}"]
 
     def model_obs(self, case, replies):
-        return list(replies) if "hist" in case else replies[0]   # the model is stateless: compared call by call
+        if "real" in case: return replies[0]
+        return list(replies) if "hist" in case else replies[0]   # per call: stateless guard; last line: stateful history
 
     def impl_view(self, case, obs):
+        if "real" in case: return obs["expect"]
         if "hist" in case:
-            return [self.impl_view(st, o) for st, o in zip(case["hist"], obs["steps"])]
+            per_call = [self.impl_view(st, o) for st, o in zip(case["hist"], obs["steps"])]
+            _, expect_l = hist_ops(case["hist"])
+            outs = []
+            for l, o in zip(expect_l, obs["steps"]):
+                if l is not None: outs.append(l)
+                outs.append("T;" + ",".join(o["trace"]))
+            return per_call + [" ".join(outs)]
         # state and trace come from the code; the middle field is the independent Python statement of the property,
         # compared with the Lean specification `denotesOwnSocket`
         return f"{obs['state']} {'own' if denotes_own_socket(case) else 'other'} {','.join(obs['trace'])}"
 
     def classify(self, case, obs):
+        if "real" in case:
+            return "real:" + json.dumps(case["real"], sort_keys=True)
         if "hist" in case:
             return ("hist",) + tuple(self.classify(st, o) for st, o in zip(case["hist"], obs["steps"]))
         if not any(s["addrs"] for s in case["servers"]): return None
         return (case["dest_hex"], case["dport"], case["tp"], str(case["servers"]))
 
     def branches(self, case, obs):
+        if "real" in case:
+            out = [f"real:len{len(case['real'])}"]
+            for o in obs["steps"]:
+                if "sub" in o:
+                    out.append("real:" + o["state"] + (":own" if denotes_own_socket(o["sub"]) else ":other"))
+                else:
+                    out.append(f"real:listeners{len(o['listing'])}")
+            return out
         if "hist" in case:
             out = [f"hist:len{len(case['hist'])}"]
             for a, b in zip(case["hist"], case["hist"][1:]):
@@ -458,6 +641,7 @@ class Check(PropertyCheck):
         return out
 
     def neighbours(self, case, rng):
+        if "real" in case: return
         if "hist" in case:
             for st in case["hist"]: yield st
             return
@@ -466,6 +650,11 @@ class Check(PropertyCheck):
                 yield self._case(dest, case["dport"], tp, case["ok"], case["servers"])
 
     def shrink_candidates(self, case):
+        if "real" in case:
+            h = case["real"]
+            for i in range(len(h)):
+                if len(h) > 1: yield {"real": h[:i] + h[i + 1:]}
+            return
         if "hist" in case:
             h = case["hist"]
             for i in range(len(h)):
